@@ -35,6 +35,8 @@ def plan(tier, seed):
 
 
 def payload_groups():
+    from fractions import Fraction
+
     """groups of values whose Python hash() collide although the values differ"""
     M = (1 << 61) - 1
     return [
@@ -57,7 +59,25 @@ def payload_groups():
         [False, 46, 0, "\x2e"],
         [None, True, False, 0, 1, 2, 14, 15, 16, 30, 31, 32, 45, 46, 47, 255, 256, 3840, 7936, 11776],
         [b"\x0f", "\x0f", 15, None],
+        # containers as annotation fields (their contents collide under hash() the same way)
+        [[-1], [-2]],
+        [[1, [-1]], [1, [-2]], [1, (-1,)]],
+        [{"k": -1}, {"k": -2}, {"k": -1, "j": 0}],
+        [frozenset({-1}), frozenset({-2})],
+        [{-1}, {-2}],
+        [Fraction(-1), Fraction(-2), -1],
     ]
+
+
+def _freeze(v):
+    """a hashable stand-in for containers (what a user's __hash__ typically does: hash(tuple(self.items)))"""
+    if isinstance(v, (list, tuple)):
+        return tuple(_freeze(x) for x in v)
+    if isinstance(v, dict):
+        return tuple(sorted((repr(k), _freeze(x)) for k, x in v.items()))
+    if isinstance(v, (set, frozenset)):
+        return frozenset(_freeze(x) for x in v)
+    return v
 
 
 def run_shard(spec, res):
@@ -88,7 +108,7 @@ def run_shard(spec, res):
                 self.v = v
 
             def __hash__(self):
-                return hash(self.v)
+                return hash(_freeze(self.v))
 
             def __eq__(self, o):
                 return type(o) is U and type(o.v) is type(self.v) and repr(o.v) == repr(self.v)
